@@ -32,7 +32,8 @@ def read_simulation_csv(csv_file):
 
             # find values for parameter
             timestamp = datetime.datetime.fromisoformat(row["time"])
-            price = float(row.get("price [EUR/kWh]", 0))
+            # price column of the simulation timeseries is given in ct/kWh
+            price = float(row.get("price [ct/kWh]", 0)) / 100
             power_grid_supply = float(row.get("grid supply [kW]", 0))
             power_fix_load = max(float(row.get("fixed load [kW]", 0)) +
                                  min(float(row.get("local generation [kW]", 0)), 0) +
